@@ -1,7 +1,7 @@
 (* Property C19 -- planning and validation work is polynomial in document size.
    Statements only; proofs are in Proofs/ValidateCost.v. *)
 From Coq Require Import List NArith ZArith String Bool.
-From GQL Require Import Exec.Syntax Exec.Exec Validate.Overlap Validate.Cost Proofs.ValidateCost.
+From GQL Require Import Exec.Syntax Exec.Exec Validate.VSyntax Validate.Overlap Validate.Rules Validate.Cost Proofs.ValidateCost Proofs.ValidateCycleCost Proofs.ValidateFcBound.
 Import ListNotations.
 Open Scope string_scope.
 
@@ -53,6 +53,36 @@ Theorem C19_plan_independent_of_implementers : forall S S' D share fuel (R : nam
   plan_doc S D share fuel = plan_doc S' D share fuel.
 Proof. exact plan_independent_of_implementers. Qed.
 Print Assumptions C19_plan_independent_of_implementers.
+
+(* findConflict calls of the memoised overlap algorithm, by an amortised analysis (every
+   non-memoised body pays for its own field comparisons with the memo entry it adds; the
+   comparisons below two fields are bounded by the product of the sizes of their
+   sub-selections): with M = max_set_size (field nodes of the largest selection-set tree the
+   rule is called on, nested ones included),
+     calls <= M*M * (visited selection sets + fields/fragment entries + pair entries). *)
+Theorem C19_find_conflict_bound : forall S D fuel,
+  fc_calls S D fuel <=
+  max_set_size S D * max_set_size S D *
+  (List.length (all_sets S D) + List.length (m_ffs (final_state S D true fuel))
+   + List.length (m_pairs (final_state S D true fuel))).
+Proof. exact fc_calls_bound. Qed.
+Print Assumptions C19_find_conflict_bound.
+
+(* ... hence in closed form, with G fragment definitions and any list U of the (selection
+   set, fragment name) keys that occur: calls <= M*M*(sets + 2*|U| + 2*G*G). *)
+Theorem C19_find_conflict_closed_form : forall S D fuel (U : list (ptype * N * name)),
+  (forall p k g f, In (p, k, g, f) (m_ffs (final_state S D true fuel)) -> In (p, k, g) U) ->
+  fc_calls S D fuel <=
+  max_set_size S D * max_set_size S D *
+  (List.length (all_sets S D) + 2 * List.length U + 2 * (List.length (d_frags D) * List.length (d_frags D))).
+Proof. exact fc_calls_closed_form. Qed.
+Print Assumptions C19_find_conflict_closed_form.
+
+(* The fragment-cycle search (NoFragmentCycles) descends into every fragment at most once
+   per document: the calls of detectCycleRecursive number at most the fragment definitions. *)
+Theorem C19_cycle_search_bound : forall W, cycle_search_calls W <= List.length (w_frags W).
+Proof. exact cycle_search_bound. Qed.
+Print Assumptions C19_cycle_search_bound.
 
 (* non-vacuity: the chain F1 { x{...F2} y{...F2} }, F2 { a } plans 3 groups with sharing
    and the memo tables are not empty on a document with two spread fragments *)
